@@ -512,9 +512,11 @@ def run_task(task):
                                        'path_len': len(ex.trace)})
             except sc.PathAbort:
                 pass
-        if res['violations'] and task.get('stop_on_violation', True):
-            ex.worklist = []
+        if len(res['violations']) >= 3:
+            # enough candidates from this task: hand them to the parent for replay; the rest of the subtree is re-queued
             res['stopped'] = True
+            res['saved_worklist'] = list(ex.worklist)
+            ex.worklist = []
     t0 = time.time()
     done = False
     try:
@@ -524,7 +526,7 @@ def run_task(task):
     except Exception as e:
         err = "HARNESS %s: %s\n%s" % (type(e).__name__, e, traceback.format_exc()[-1500:])
     res['stats'] = ex.stats.as_dict()
-    res['remaining'] = ex.worklist
+    res['remaining'] = res.pop('saved_worklist', None) or ex.worklist
     res['done'] = done
     res['error'] = err
     res['wall'] = time.time() - t0
@@ -639,6 +641,10 @@ def run_check(prop_id, tier='quick', seed=0, budget_s=None, procs=None, replay_s
                 'samples': 1} for j in jobs]
     job_state = {json.dumps(j, sort_keys=True): {'open': 1, 'partial': False} for j in jobs}
     stop = False
+    confirmed = []
+    known = []
+    unconfirmed = []
+    replayed = {}
     ctxm = mp.get_context('fork')
     pool = ctxm.Pool(processes=min(procs, max(1, len(pending))) if len(pending) < procs else procs)
     inflight = []
@@ -672,10 +678,26 @@ def run_check(prop_id, tier='quick', seed=0, budget_s=None, procs=None, replay_s
                     errors.append({'job': t['job'], 'error': r['error']})
                     js['partial'] = True
                 for cex in r['violations']:
-                    violations.append(cex)
-                if r['violations']:
-                    stop = True
-                if r['remaining'] and not r.get('stopped'):
+                    k = (cex['label'], key)
+                    if k in replayed and replayed[k] >= 2:
+                        continue
+                    replayed[k] = replayed.get(k, 0) + 1
+                    try:
+                        cctx, status = replay_concrete(prop, cex['job'], cex['inputs'])
+                    except Exception as e:
+                        unconfirmed.append(dict(cex, replay_status="replay crashed: %s: %s" % (type(e).__name__, e)))
+                        continue
+                    if cctx.failed:
+                        cex = dict(cex, replay_failed=cctx.failed, replay_status=status)
+                        f = match_finding(findings, prop_id, cex)
+                        if f:
+                            known.append((f, cex))
+                        else:
+                            confirmed.append(cex)
+                            stop = True
+                    else:
+                        unconfirmed.append(dict(cex, replay_status=status + ' / all %d concrete checks passed' % cctx.passed))
+                if r['remaining']:
                     if time.time() - t0 > budget_s:
                         js['partial'] = True
                     else:
@@ -703,31 +725,6 @@ def run_check(prop_id, tier='quick', seed=0, budget_s=None, procs=None, replay_s
     for key, js in job_state.items():
         if js['open'] > 0:
             jobs_partial += 1
-
-    # ---- confirm violations on the real code
-    confirmed = []
-    known = []
-    unconfirmed = []
-    seen = set()
-    for cex in violations:
-        k = (cex['label'], json.dumps(cex['job'], sort_keys=True))
-        if k in seen:
-            continue
-        seen.add(k)
-        try:
-            cctx, status = replay_concrete(prop, cex['job'], cex['inputs'])
-        except Exception as e:
-            unconfirmed.append(dict(cex, replay_status="replay crashed: %s: %s" % (type(e).__name__, e)))
-            continue
-        if cctx.failed:
-            cex = dict(cex, replay_failed=cctx.failed, replay_status=status)
-            f = match_finding(findings, prop_id, cex)
-            if f:
-                known.append((f, cex))
-            else:
-                confirmed.append(cex)
-        else:
-            unconfirmed.append(dict(cex, replay_status=status + ' / all %d concrete checks passed' % cctx.passed))
 
     # ---- translator validation on passing path models
     rnd = random.Random(seed)
